@@ -37,13 +37,16 @@ pub(crate) struct VGhost {
     pub event_idx: bool,
     pub event_idx_calls: u32,
     pub reset_calls: u32,
+    pub wait_calls: u32,
+    pub wait_data0: u64,
+    pub wait_data1: u64,
     pub marker: u64,
 }
 pub(crate) static mut VG: VGhost = VGhost {
     reg_used: [false; NREG], reg_ep: [-1; NREG], reg_fd: [-1; NREG], reg_data: [0; NREG], reg_overflow: false,
     counter: [0; NFD], notified: [0; NFD], consumed_empty: false, closed: [false; NFD], double_close: false,
     num_queues: 2, max_queue_size: 256, features: 0, he_calls: 0, he_event: 0, he_thread: 0, he_nvrings: 0,
-    he_ring_id: 0, he_ring_active: false, acked: 0, acked_calls: 0, event_idx: false, event_idx_calls: 0, reset_calls: 0,
+    he_ring_id: 0, he_ring_active: false, acked: 0, acked_calls: 0, event_idx: false, event_idx_calls: 0, reset_calls: 0, wait_calls: 0, wait_data0: 0, wait_data1: 0,
     marker: 0x7675_6220_6768_6f73,
 };
 #[allow(static_mut_refs)]
@@ -173,6 +176,26 @@ pub(crate) unsafe extern "C" fn ghost_close(fd: libc::c_int) -> libc::c_int {
 pub(crate) fn ghost_alloc_error(_l: std::alloc::Layout) -> ! {
     kani::assume(false);
     loop {}
+}
+/// stub for Epoll::wait used by the run() harness: the n-th call reports the scripted event (level
+/// triggered readiness of one descriptor); scripted data words live in the ghost
+pub(crate) fn ghost_epoll_wait(_ep: &Epoll, _timeout: i32, events: &mut [EpollEvent]) -> std::io::Result<usize> {
+    let g = vg();
+    let data = if g.wait_calls == 0 { g.wait_data0 } else { g.wait_data1 };
+    g.wait_calls += 1;
+    events[0] = EpollEvent::new(EventSet::IN, data);
+    Ok(1)
+}
+/// stub for alloc::vec::from_elem in the run() harness only: the worker's 100-entry event buffer is created
+/// with vec![elem; 100], a 100-iteration clone loop; unwinding it 100 times also unwinds every drop-glue
+/// recursion 100 deep.  The buffer is only ever written by epoll_wait before it is read, so a buffer whose
+/// first entry is initialised is equivalent.
+pub(crate) fn ghost_from_elem<T: Clone>(elem: T, n: usize) -> Vec<T> {
+    let mut v = Vec::with_capacity(n);
+    if n > 0 {
+        v.push(elem);
+    }
+    v
 }
 pub(crate) fn kick(fd: RawFd) {
     if let Some(k) = slot(fd) {
